@@ -27,7 +27,7 @@ from . import e2e
 PROP = "C12"
 
 PLAY = """role r
-  :ok echo hello; touch notes.txt 'notes.txt~' '#notes.txt#' '#draft~'; [ -e pipe ] || mkfifo pipe
+  :ok echo hello; touch notes.txt 'notes.txt~' '#notes.txt#' '#draft~'; [ -e pipe ] || mkfifo pipe; mkdir -p rel; ln -sfn rel current; ln -sf notes.txt last.txt
   :bad false
   :slow sleep 0.05; echo slept
   spotlight while true; do echo "v $RANDOM"; echo "e boo"; sleep 0.02; done
